@@ -148,6 +148,11 @@ class State:
         if is_const(t):
             return bool(t[2])
         if is_lit(t):
+            if t[3] is not None and t[1] in ("dict", "list", "set"):
+                # a mutable display that was filled or emptied since it was created
+                for ev in _deep_events(self.events):
+                    if ev[0] in ("store", "del", "mutcall") and _root_term(ev[2]) == t:
+                        return None
             return len(t[2]) > 0
         cl = self.closure()
         if ("truthy", t) in cl:
